@@ -70,11 +70,11 @@ def run(tier):
     if asb["error"] or not asb["violation"]:
         raise C.ToolError("the early-return deviation of Route.tla is not refuted by TLC")
     exprs = [c["mathml"] for c in mml.corpus() if 60 < len(c["mathml"]) < 900]
-    n = 36 if tier == "quick" else 3000
+    n = 42 if tier == "quick" else 3000
     # pass 1: learn number of ids and braille length per (expr, code) to size the queries
     picks = []
     for i in range(n):
-        picks.append((rng.choice(exprs), CODES[i % len(CODES)] if tier == "thorough" else CODES[i % 4], STYLES[(i // 2) % 4]))
+        picks.append((rng.choice(exprs), CODES[i % len(CODES)], STYLES[(i // len(CODES) + i) % 4]))
     probe = [{"id": f"p{i}", "ops": [{"op": "set_rules_dir", "dir": "$RULES"}, {"op": "set_pref", "name": "Language", "value": {"CMU": "es", "Vietnam": "vi", "Swedish": "sv"}.get(c, "en")},
                                      {"op": "set_pref", "name": "BrailleCode", "value": c}, {"op": "set_pref", "name": "BrailleNavHighlight", "value": "Off"},
                                      {"op": "set_mathml", "mathml": e}, {"op": "braille", "id": ""}]} for i, (e, c, s) in enumerate(picks)]
